@@ -11,7 +11,7 @@ from sim.seams import Env
 PROPERTY = "C29"
 LEVEL = "exploration"
 SCENARIOS = {"alternate": 1}
-TIERS = {"quick": {"runs": 1600, "chunk": 5}, "thorough": {"runs": 40000, "chunk": 25}}
+TIERS = {"quick": {"runs": 1600, "chunk": 5}, "thorough": {"runs": 50000000, "wall_s": 600, "chunk": 25, "recheck": 16}}
 RULE = ("one run = 1-4 instances of 1-2 tape-generated device classes with device variables "
         "of drawn formats (B H I Q b h i q x ?), in a ProcessSyncGroup whose start() spawns "
         "the child through the simulated 'spawn' context (the group really goes through "
